@@ -113,7 +113,7 @@ var props = map[string]*propConfig{
 			{Name: "saturation", Flags: map[string]string{"family": "saturation"}, Quick: 4000, Thorough: 600000},
 		},
 		QuickBudget: 90 * time.Second, ThoroughBudget: 25 * time.Minute, Chunk: 125,
-		Rule: "one run = one seeded execution of 2..4 threads x 1..6 counters (shared, private, same-name aliases, long names that cross pages, stack counters) with a concurrent first open, file growth and clock-driven rotation, scheduled at the granularity of single atomic operations, lock acquisitions and Counter.ptr accesses; distinct = distinct event-log hash; non-trivial = at least one context switch between live tasks; names include the longest a record can hold, names no record can hold (empty, over 4096 bytes: their counts stay in memory by design) and stack names cut to the maximum length; one to three rotations in a row",
+		Rule: "one run = one seeded execution of 2..4 threads x 1..6 counters (shared, private, same-name aliases, long names that cross pages, stack counters) with a concurrent first open, file growth and clock-driven rotation, scheduled at the granularity of single atomic operations, lock acquisitions and Counter.ptr accesses; distinct = distinct event-log hash; non-trivial = at least one context switch between live tasks; names include the longest a record can hold, names no record can hold (empty, over 4096 bytes: their counts stay in memory by design) and stack names cut to the maximum length; one to three rotations in a row; in a quarter of the saturation family's runs every thread adds the largest amount (2^63-1 less 0..2) to one counter, so that the adders meet just below 2^63 inside each other's load and add",
 		Real: []string{"internal/counter (all of it, instrumented build generated from the working tree)", "internal/mmap", "internal/telemetry", "Linux tmpfs and mmap(MAP_SHARED)"},
 		Stub: []string{"munmap replaced by mprotect(PROT_NONE) so that use-after-unmap faults deterministically", "Go scheduler (replaced by the tape-driven scheduler)", "wall clock"},
 		Assumptions: []string{
@@ -179,7 +179,7 @@ var props = map[string]*propConfig{
 			{Name: "well-formed-files", Flags: map[string]string{"family": "wellformed"}, Quick: 4000, Thorough: 1200000},
 		},
 		QuickBudget: 90 * time.Second, ThoroughBudget: 12 * time.Minute, Chunk: 50,
-		Rule:        "live-snapshots: Parse is run on the bytes of the shared counter file after every scheduler step of a multi-process history with kills (every intermediate state: reserved-unlinked records, dead records, half-grown files) and compared with the independent decoder whenever that accepts the snapshot; damaged-at-rest: Parse on structurally damaged files (see C05) must return within a loop budget, and must agree with the independent decoder when the damage left the file well-formed; well-formed-files: Parse on the final files of the C10 histories (names of 1..4096 bytes of any content, stack names with method, closure and generic frames under ditto compression) must return exactly what the independent decoder and stack expander read. Claimed only for the clauses that meet the simulated schedule and disk; totality over all byte strings (random / coverage-guided) is not decided by this family; encoded files carry values up to 2^64-1 and chains of hundreds of records",
+		Rule:        "live-snapshots: Parse is run on the bytes of the shared counter file after every scheduler step of a multi-process history with kills (every intermediate state: reserved-unlinked records, dead records, half-grown files) and compared with the independent decoder whenever that accepts the snapshot; damaged-at-rest: Parse on structurally damaged files (see C05) must return within a loop budget, and must agree with the independent decoder when the damage left the file well-formed; well-formed-files: Parse on the final files of the C10 histories (names of 1..4096 bytes of any content, stack names with method, closure and generic frames under ditto compression) must return exactly what the independent decoder and stack expander read. Claimed only for the clauses that meet the simulated schedule and disk; totality over all byte strings (random / coverage-guided) is not decided by this family; encoded files carry values up to 2^64-1 and chains of hundreds of records; one damaged file in 24 is padded to 8 MiB and more (free pages), and bucket heads and next pointers also take 0xfffffff8, 0xffffffe8, len-8 and len-16",
 		Real:        []string{"internal/counter.Parse, DecodeStack (instrumented: loop budget)", "internal/counter writers producing the snapshots"},
 		Stub:        []string{"Go scheduler", "wall clock"},
 		Assumptions: []string{"refformat and refstack are the oracle", "two stored names that expand to the same text are not generated (the documentation does not say which wins)"},
@@ -203,7 +203,7 @@ var props = map[string]*propConfig{
 		Families: []family{{Name: "concurrent-uploaders", Flags: map[string]string{"family": "plain"}, Quick: 12000, Thorough: 2000000},
 			{Name: "removal-after-disk-failure", Flags: map[string]string{"family": "diskfault"}, Quick: 160, Thorough: 40000}},
 		QuickBudget: 100 * time.Second, ThoroughBudget: 25 * time.Minute, Chunk: 50,
-		Rule:        "one run = a machine history of 2..4 rounds over simulated weeks: counter files of 3 programs x versions x Go versions x platforms (expired, active, empty, unreadable, near-miss names), then 1..4 concurrent real upload.Run calls in mode on or local scheduled at file-system/HTTP-call granularity with tape-permuted map order, server fates from the tape; after each round the reference aggregation is compared with local.<week>.json for every week that had no report, the call log is checked for removals before a report exists and for any mutating call on active/unreadable files, and existing reports must keep their bytes; distinct = distinct event-log hash; non-trivial = at least one context switch between live uploaders; in a third of the runs the machine lives in a local time zone (UTC-8, UTC+14, UTC-11:30) that every time.Now() carries, and one uploader in five is handed its start time in such a zone; a program named local.tool is in the pool; the directory name may carry a date; foreign json files, a debug directory with data-named files, several files of one build in a week, near-miss identities, empty metadata values and values up to 2^50 occur; a configuration may be published in mid-round; removal-after-disk-failure: after each enumerated single call failure of the upload-failure world (see C05) a counter file that is gone must belong to a week that has a report (evaluations = executions)",
+		Rule:        "one run = a machine history of 2..4 rounds over simulated weeks: counter files of 3 programs x versions x Go versions x platforms (expired, active, empty, unreadable, near-miss names), then 1..4 concurrent real upload.Run calls in mode on or local scheduled at file-system/HTTP-call granularity with tape-permuted map order, server fates from the tape; after each round the reference aggregation is compared with local.<week>.json for every week that had no report, the call log is checked for removals before a report exists and for any mutating call on active/unreadable files, and existing reports must keep their bytes; distinct = distinct event-log hash; non-trivial = at least one context switch between live uploaders; in a third of the runs the machine lives in a local time zone (UTC-8, UTC+14, UTC-11:30) that every time.Now() carries, and one uploader in five is handed its start time in such a zone; a program named local.tool is in the pool; the directory name may carry a date; foreign json files, a debug directory with data-named files, several files of one build in a week, near-miss identities, empty metadata values and values up to 2^50 occur; a configuration may be published in mid-round; removal-after-disk-failure: after each enumerated single call failure of the upload-failure world (see C05) a counter file that is gone must belong to a week that has a report (evaluations = executions); counter files of the previous build under a sibling import path that shares its last element (example.com/gopls and example.net/x/gopls: the same file-name prefix, two programs); from the second round on, one round in five gets a late counter file of a week whose unsent report is still in local/, the week's local copy tidied away by the user in half of these",
 		Real:        []string{"internal/upload (all of it: findWork, reports, createReport, uploadReport; instrumented)", "internal/telemetry (mode file)", "internal/config", "internal/counter.Parse (uninstrumented in this world)", "cmd/gotelemetry runOn/runLocal/runOff/runClean", "Linux tmpfs (O_EXCL, link, rename semantics are the kernel's)"},
 		Stub:        []string{"the `go` command that internal/configstore.Download runs (`go mod download -json`): simulated, it prints the module directory of the simulated config store's current version; Download itself is the real code", "upload server: a policy stub deciding each request's fate (200 / 4xx / 5xx / no answer / processed-but-answer-lost / duplicate delivery); its verdict on a given body is stable", "counter files are produced by the independent encoder (refformat)", "crypto/rand.Reader replaced so that X is chosen by the tape", "Go scheduler, wall clock"},
 		Assumptions: []string{"weeks mixing expired and unexpired files of one end date are not generated (ends are midnights)", "sums stay far below 2^62", "sampling, not enumeration"},
@@ -250,7 +250,7 @@ var props = map[string]*propConfig{
 		Harness: "h2", Level: "exploration",
 		Families:    []family{{Name: "user-commands", Flags: map[string]string{"family": "user"}, Quick: 8000, Thorough: 2000000}},
 		QuickBudget: 100 * time.Second, ThoroughBudget: 25 * time.Minute, Chunk: 50,
-		Rule:        "machine histories in which the user runs the real gotelemetry on / local / off / clean (their os.Exit paths simulated) between uploader rounds over directories populated by the simulation plus foreign files whose names match exactly, nearly (x.v1.count.bak, y.jsonx, z.v2.count, .json.swp, report.JSON) or not at all the data-file patterns, and sub-directories; after clean exactly the counter files and reports are gone and everything else hashes the same; a mode command leaves the file byte-identical when the mode is already the requested one, otherwise writes `<mode> <simulated UTC date>` which the library reads back; before clean the upload directory may not exist yet or local/ may have been removed by hand, and non-empty sub-directories named like data files hold foreign files; one command in five finds a mode file that holds no valid mode",
+		Rule:        "machine histories in which the user runs the real gotelemetry on / local / off / clean (their os.Exit paths simulated) between uploader rounds over directories populated by the simulation plus foreign files whose names match exactly, nearly (x.v1.count.bak, y.jsonx, z.v2.count, .json.swp, report.JSON) or not at all the data-file patterns, and sub-directories; after clean exactly the counter files and reports are gone and everything else hashes the same; a mode command leaves the file byte-identical when the mode is already the requested one, otherwise writes `<mode> <simulated UTC date>` which the library reads back; before clean the upload directory may not exist yet or local/ may have been removed by hand, and non-empty sub-directories named like data files hold foreign files; one command in five finds a mode file that holds no valid mode; one clean in six finds local/ or upload/ as a symbolic link to a directory kept elsewhere (the snapshots list its files under the link's name)",
 		Real:        []string{"internal/upload (all of it: findWork, reports, createReport, uploadReport; instrumented)", "internal/telemetry (mode file)", "internal/config", "internal/counter.Parse (uninstrumented in this world)", "cmd/gotelemetry runOn/runLocal/runOff/runClean", "Linux tmpfs (O_EXCL, link, rename semantics are the kernel's)"},
 		Stub:        []string{"the `go` command that internal/configstore.Download runs (`go mod download -json`): simulated, it prints the module directory of the simulated config store's current version; Download itself is the real code", "upload server: a policy stub deciding each request's fate (200 / 4xx / 5xx / no answer / processed-but-answer-lost / duplicate delivery); its verdict on a given body is stable", "counter files are produced by the independent encoder (refformat)", "crypto/rand.Reader replaced so that X is chosen by the tape", "Go scheduler, wall clock"},
 		Assumptions: []string{"sub-directories do not carry data suffixes (whether a directory called x.json is a report is not decided by the statement)", "local/ and upload/ are directories, not symbolic links to directories (not generated: the oracles' directory snapshots do not follow links)"},
@@ -273,7 +273,7 @@ var props = map[string]*propConfig{
 		Harness: "h3", Level: "exploration",
 		Families:    []family{{Name: "request-stream", Flags: map[string]string{"family": "requests"}, Quick: 8000, Thorough: 3200000}},
 		QuickBudget: 100 * time.Second, ThoroughBudget: 20 * time.Minute, Chunk: 50,
-		Rule:        "one run = a stream of 3..14 requests to the real upload handler behind its real middleware chain and a real file-system bucket: all methods; bodies that are valid approved reports (incl. ~100 KiB ones and hostile X values), reports with exactly one field invalid (week not a date, config not semver, X = 0, one unapproved program/version/Go version/GOOS/GOARCH/counter/stack, near-miss names), arbitrary bytes, well-formed JSON of the wrong shape, truncated and oversize JSON, duplicates; delivered through a body reader with short reads, a mid-stream error or an early end; after every request the answer class and the recursive listing of the storage directory are compared with a map object store and the reference configuration semantics; clauses that depend only on a pure function of the body are claimed for the request-stream/history part only; valid reports may carry fields the report type does not have or bytes after the JSON value (acceptance of the latter is not judged), and every stored object is decoded strictly: known fields only, one value; one report in five reuses the week and X of an accepted one with other content; bodies padded to limit-1 / limit / limit+1 with half of the requests declaring their length; request paths may name another week or none; bodies over the limit with a small complete value; content hashes of all stored objects are compared around every request",
+		Rule:        "one run = a stream of 3..14 requests to the real upload handler behind its real middleware chain and a real file-system bucket: all methods; bodies that are valid approved reports (incl. ~100 KiB ones and hostile X values), reports with exactly one field invalid (week not a date, config not semver, X = 0, one unapproved program/version/Go version/GOOS/GOARCH/counter/stack, near-miss names), arbitrary bytes, well-formed JSON of the wrong shape, truncated and oversize JSON, duplicates; delivered through a body reader with short reads, a mid-stream error or an early end; after every request the answer class and the recursive listing of the storage directory are compared with a map object store and the reference configuration semantics; clauses that depend only on a pure function of the body are claimed for the request-stream/history part only; valid reports may carry fields the report type does not have or bytes after the JSON value (acceptance of the latter is not judged), and every stored object is decoded strictly: known fields only, one value; one report in five reuses the week and X of an accepted one with other content; bodies padded to limit-1 / limit / limit+1 with half of the requests declaring their length; request paths may name another week or none; bodies over the limit with a small complete value; content hashes of all stored objects are compared around every request; refused values outside ASCII (weeks, configs, program and counter names that are long in bytes and short in characters, digits that are not 0-9)",
 		Real:        []string{"godev/cmd/telemetrygodev handleUpload + validate", "godev/internal/middleware chain (Log, Timeout, RequestSize, Recover)", "godev/internal/content error-to-status mapping", "godev/internal/storage FSBucket", "internal/config"},
 		Stub:        []string{"no socket: requests are handed to ServeHTTP with a ResponseRecorder", "client body stream simulated (short reads, errors, early EOF)", "GCS backend not run"},
 		Assumptions: []string{"a body whose delivered prefix is itself complete JSON followed by trailing bytes is not judged (the documentation does not say)", "the URL path is a clean /upload/<date> (paths are not in the property's quantifier)", "one run in three ends with two valid uploads whose handling overlaps (the first stops before its open, write or close while the second is served); the pair is judged only if the server serves the second meanwhile (three seconds of real time)", "a run is non-trivial when at least one of its requests was judged"},
@@ -295,7 +295,7 @@ var props = map[string]*propConfig{
 		Harness: "h4", Level: "exploration",
 		Families:    []family{{Name: "merge-and-chart", Flags: map[string]string{"family": "worker"}, Quick: 5000, Thorough: 1600000}},
 		QuickBudget: 100 * time.Second, ThoroughBudget: 20 * time.Minute, Chunk: 50,
-		Rule:        "one run = 1..4 simulated days of stored reports (0..40 per day, sizes from tiny to just under the 100 KiB upload limit so that merged lines exceed 64 KiB, repeated X across days, several programs and buckets), the real handleMerge per day (sometimes skipping one) and the real handleChart for single days and ranges, with the bucket listing order and Go's map iteration order inside group/partition permuted by the tape; each chart is computed three times under different permutations; checked: one merged record per stored object decoding to it, NumReports, every partition value against the reference count of distinct report IDs, byte-identical output, 404 and no chart object for a range containing a day never merged; a day may have been merged before, when one of its objects was larger (same week and X stored again with less in it); the configuration lists pre-release Go versions and versions that are equal as semantic versions; objects are stored in several textual forms; reports may have no program or items outside the configuration; X with full mantissas, above 1 or negative; ranges of a week; between chart attempts the days are merged again in another listing order",
+		Rule:        "one run = 1..4 simulated days of stored reports (0..40 per day, sizes from tiny to just under the 100 KiB upload limit so that merged lines exceed 64 KiB, repeated X across days, several programs and buckets), the real handleMerge per day (sometimes skipping one) and the real handleChart for single days and ranges, with the bucket listing order and Go's map iteration order inside group/partition permuted by the tape; each chart is computed three times under different permutations; checked: one merged record per stored object decoding to it, NumReports, every partition value against the reference count of distinct report IDs, byte-identical output, 404 and no chart object for a range containing a day never merged; a day may have been merged before, when one of its objects was larger (same week and X stored again with less in it); the configuration lists pre-release Go versions and versions that are equal as semantic versions; objects are stored in several textual forms; reports may have no program or items outside the configuration; X with full mantissas, above 1 or negative; ranges of a week; between chart attempts the days are merged again in another listing order; one large report in three holds < and > in its stack frames, so that its stored and merged form (98..114 KiB) is longer than the body that was sent and than the upload limit",
 		Real:        []string{"godev/cmd/worker handleMerge, readMergedReports, handleChart, group, charts, partition (instrumented: map iteration order)", "godev/internal/storage FSBucket", "internal/config"},
 		Stub:        []string{"bucket handles wrapped so that the listing order comes from the tape", "requests handed to the handlers with a ResponseRecorder", "GCS, Cloud Tasks not run"},
 		Assumptions: []string{"configuration Go versions are of the form go1.N.P (the development version maps to an empty bucket name)", "zero-count buckets may be present or absent", "the worker process may have as few as 40 open files (RLIMIT_NOFILE is lowered in half of the runs with a busy day): a merge that keeps a day's readers open until its end is reported as failing", "overlapping chart requests are judged only if the worker serves the second while the first is stopped (three seconds of real time)"},
@@ -304,7 +304,7 @@ var props = map[string]*propConfig{
 		Harness: "h5", Level: "exploration",
 		Families:    []family{{Name: "store-histories", Flags: map[string]string{"family": "store"}, Quick: 8000, Thorough: 2400000}},
 		QuickBudget: 100 * time.Second, ThoroughBudget: 10 * time.Minute, Chunk: 100,
-		Rule:        "one run = a history of 4..19 write / overwrite / read / prefix-list operations on the real FSBucket against a map object store, over names of nested ordinary components and the object names the upload (week/%g-of-X.json incl. extreme floats), merge (date.json) and chart (date.json, start_end.json) services construct; names that are a path prefix of another stored name are not generated; every constructed name must resolve under the bucket directory and a sibling bucket must stay untouched; names get suffix siblings (.tmp, .bak, ~, .lock), one write in five is listed before it is closed, listings may overlap; explicit overwrites with shorter, empty or much longer content; a sibling bucket whose name extends this bucket's; the handle is re-created in mid-history",
+		Rule:        "one run = a history of 4..19 write / overwrite / read / prefix-list operations on the real FSBucket against a map object store, over names of nested ordinary components and the object names the upload (week/%g-of-X.json incl. extreme floats), merge (date.json) and chart (date.json, start_end.json) services construct; names that are a path prefix of another stored name are not generated; every constructed name must resolve under the bucket directory and a sibling bucket must stay untouched; names get suffix siblings (.tmp, .bak, ~, .lock), one write in five is listed before it is closed, listings may overlap; explicit overwrites with shorter, empty or much longer content; a sibling bucket whose name extends this bucket's; the handle is re-created in mid-history; one write in six (once something is stored) is storage.Copy from a stored object to a generated name: the model gives the destination the source's bytes of that moment, later overwrites of either are not read from the other",
 		Real:        []string{"godev/internal/storage FSBucket, FSObject, FSObjectIterator", "Linux tmpfs"},
 		Stub:        []string{"GCS backend not run"},
 		Assumptions: []string{"input-heavy property: claimed for the history part (sequences of operations against a model)"},
